@@ -137,22 +137,22 @@ func (t *topo) confMap() map[string]any {
 }
 
 type c20Sim struct {
-	r      *simkit.Run
-	w      *World
-	prov   *simProvider
-	col    *otelcol.Collector
-	cancel context.CancelFunc
-	run    *simkit.Task
-	states []otelcol.State
-	reachedRunning bool
-	stopReason     string // first stop reason delivered after Running was reached
-	stopAtEvent    int
-	expectRunErr   bool
-	reloadsOK      int
-	helper         []*simkit.Task
+	r               *simkit.Run
+	w               *World
+	prov            *simProvider
+	col             *otelcol.Collector
+	cancel          context.CancelFunc
+	run             *simkit.Task
+	states          []otelcol.State
+	reachedRunning  bool
+	stopReason      string // first stop reason delivered after Running was reached
+	stopAtEvent     int
+	expectRunErr    bool
+	reloadsOK       int
+	helper          []*simkit.Task
 	notifs, sighups int
-	initialFails   bool
-	watchTasks     []*simkit.Task
+	initialFails    bool
+	watchTasks      []*simkit.Task
 }
 
 func nopLogging() []zap.Option {
@@ -200,7 +200,7 @@ func runC20(r *simkit.Run) {
 			prov.nextErr = errors.New("sim provider: cannot retrieve")
 		default:
 			ks := compKeysOf(prov.next)
-			w.plan(ks[tp.Draw(len(ks))]).FailStart = true
+			w.failStartAt[1] = ks[tp.Draw(len(ks))]
 		}
 		r.Count("fault.initial_config_fails")
 	}
@@ -326,20 +326,18 @@ func (s *c20Sim) prepareNext(t *topo, kind int) {
 	p.next = t
 	p.corrupt = false
 	p.nextErr = nil
-	for _, k := range compKeysOf(t) {
-		if pl := s.w.plan(k); pl.FailStartGen > 0 {
-			pl.FailStart, pl.FailStartGen = false, 0
-		}
-	}
+	s.w.mu.Lock()
+	delete(s.w.failStartAt, s.w.Gen+1)
+	s.w.mu.Unlock()
 	switch kind {
 	case 1:
 		p.corrupt = true
 		s.r.Count("fault.new_config_invalid")
 	case 2:
 		ks := compKeysOf(t)
-		pl := s.w.plan(ks[s.r.Tape.Draw(len(ks))])
+		k := ks[s.r.Tape.Draw(len(ks))]
 		s.w.mu.Lock()
-		pl.FailStart, pl.FailStartGen = true, s.w.Gen+1 // only the generation served by the next Retrieve
+		s.w.failStartAt[s.w.Gen+1] = k // only the generation served by the next Retrieve
 		s.w.mu.Unlock()
 		s.r.Count("fault.new_config_start_fails")
 	}
@@ -491,7 +489,9 @@ func (s *c20Sim) checkOverlap() {
 		comps = append(comps, b)
 	}
 	s.w.mu.Unlock()
-	sort.Slice(comps, func(i, j int) bool { return comps[i].key+fmt.Sprint(comps[i].gen) < comps[j].key+fmt.Sprint(comps[j].gen) })
+	sort.Slice(comps, func(i, j int) bool {
+		return comps[i].key+fmt.Sprint(comps[i].gen) < comps[j].key+fmt.Sprint(comps[j].gen)
+	})
 	for g, seq := range firstCreate {
 		for _, b := range comps {
 			if b.gen >= g {
@@ -556,7 +556,9 @@ func (s *c20Sim) finalChecks() {
 		comps = append(comps, b)
 	}
 	s.w.mu.Unlock()
-	sort.Slice(comps, func(i, j int) bool { return comps[i].key+fmt.Sprint(comps[i].gen) < comps[j].key+fmt.Sprint(comps[j].gen) })
+	sort.Slice(comps, func(i, j int) bool {
+		return comps[i].key+fmt.Sprint(comps[i].gen) < comps[j].key+fmt.Sprint(comps[j].gen)
+	})
 	for _, b := range comps {
 		if b.nStart > 0 && b.nShutdown == 0 {
 			r.Failf("cleanup", "started-component-not-shut-down", "%s (configuration %d) was started but never shut down; Run returned %v", b.k(), b.gen, runErr)
